@@ -74,7 +74,7 @@ PROPS = {
         "level_note": "net.ParseIP and strconv.Atoi are section variables (two hypotheses on ParseIP, checked per case).",
     },
     "C01": {
-        "jobs": [sess_job(120, 2500, world=True), {"cmd": "hostile", "quick": 150, "thorough": 6000, "timeout": 3000}],
+        "jobs": [sess_job(300, 2500, world=True), {"cmd": "hostile", "quick": 400, "thorough": 6000, "timeout": 3000}],
         "rule": SESS_RULE + "; every 4th session is replayed against a world with different surroundings of the root (non-interference oracle); "
                 "job hostile: paths assembled from '..', '.', empty elements, the names of the root's siblings, the virtual prefixes and NUL, joined by "
                 "'/' and - every 4th path - by '\\' or a mix of both (one element for this server, never a way up), incl. fixed escapes such as "
@@ -87,8 +87,8 @@ PROPS = {
                       "only below the root), C01_conn_ok, C01_outside_untouched, over the session model.",
     },
     "C02": {
-        "jobs": [sess_job(140, 2500, keep_ops=["open_file", "read_file", "read_critical"]),
-                 {"cmd": "views", "quick": 60, "thorough": 3000, "timeout": 3000}],
+        "jobs": [sess_job(320, 2500, keep_ops=["open_file", "read_file", "read_critical"]),
+                 {"cmd": "views", "quick": 150, "thorough": 3000, "timeout": 3000}],
         "rule": SESS_RULE, "assumptions": SESS_ASSUME,
         "partial": ["generated images and decrypted views as the opened object are covered by C09/C10 (reader contract); "
                     "sparse files past 4 GiB are exercised by the direct oracle only"],
@@ -97,14 +97,14 @@ PROPS = {
                       "and ends the connection after a correct prefix when short; other requests never disturb the opened object.",
     },
     "C03": {
-        "jobs": [sess_job(140, 2500), {"cmd": "bigdir", "quick": 4, "thorough": 44, "timeout": 3000}],
+        "jobs": [sess_job(320, 2500), {"cmd": "bigdir", "quick": 4, "thorough": 44, "timeout": 3000}],
         "rule": SESS_RULE, "assumptions": SESS_ASSUME, "partial": [],
         "level_text": "Theorems C03_consumes (parse inverts the documented wire format and consumes exactly 16+announced bytes), C03_stream (the byte-level "
                       "server refines the request-level semantics for every request sequence, any state, any unfinished tail), C03_shape (every response has the "
                       "documented layout) and C03_malformed, over the model of pkg/proto + pkg/server + internal/handler.",
     },
     "C05": {
-        "jobs": [sess_job(140, 2500, keep_ops=["create", "write", "delete", "mkdir", "rmdir"], world=True)],
+        "jobs": [sess_job(320, 2500, keep_ops=["create", "write", "delete", "mkdir", "rmdir"], world=True)],
         "rule": SESS_RULE + "; after every create/delete/mkdir/rmdir the set of paths below the root is walked and compared with the set before the "
                 "request: exactly the named entry appears or disappears on success, nothing on failure (oracle C05-exact; incl. mkdir of an existing "
                 "directory and below a missing parent)", "assumptions": SESS_ASSUME,
@@ -118,8 +118,8 @@ PROPS = {
                       "leaves the path at any element finds the same node, ancestors keep time and names, no inode changes), over the session model.",
     },
     "C06": {
-        "jobs": [sess_job(120, 2500, keep_ops=["open_dir", "dir_entry", "dir_entry_v2", "read_dir", "stat", "dir_size"]),
-                 {"cmd": "links", "quick": 150, "thorough": 5000, "timeout": 3000},
+        "jobs": [sess_job(280, 2500, keep_ops=["open_dir", "dir_entry", "dir_entry_v2", "read_dir", "stat", "dir_size"]),
+                 {"cmd": "links", "quick": 400, "thorough": 5000, "timeout": 3000},
                  {"cmd": "bigdir", "quick": 4, "thorough": 44, "timeout": 3000}],
         "rule": SESS_RULE + "; every STAT answer and V2 entry is also compared field by field with the harness' own stat of the file (oracles C06-stat, "
                 "C06-iter, C06-times: size, mtime, change time, access time, kind); job links: trees with symlinks to files, directories and nothing; job "
@@ -129,7 +129,7 @@ PROPS = {
                       "C06_iter (entry-by-entry enumeration yields each entry once then the end marker, any mix of V1/V2), C06_stat, C06_dirsize, C06_names.",
     },
     "C09": {
-        "jobs": [{"cmd": "viso", "quick": 50, "thorough": 4000, "timeout": 3000}],
+        "jobs": [{"cmd": "viso", "quick": 400, "thorough": 4000, "timeout": 3000}],
         "rule": "generated images of trees with 0..25 files of boundary sizes (0,1,2047,2048,2049,64KiB+-1, random; a sparse file past 4 GiB in some) x "
                 "sequences of 5..45 Read/Seek/ReadAt operations with offsets at structural boundaries +-2 and lengths 1..1 MiB; the image internals "
                 "(fsBuf, file table, pad area) are taken from the real object through an overlay accessor; non-trivial = the sequence touches >= 2 zones; "
@@ -142,7 +142,7 @@ PROPS = {
                       "iterator's own counters; image internals in the differential come from the real object.",
     },
     "C10": {
-        "jobs": [{"cmd": "enc", "quick": 120, "thorough": 8000, "timeout": 3000}],
+        "jobs": [{"cmd": "enc", "quick": 400, "thorough": 8000, "timeout": 3000}],
         "rule": "images of 8..48 sectors (+ partial tail) with random content and disc key, region tables of 2..60 regions (adjacent regions, "
                 "regions from sector 1, to/beyond the last sector) and near-miss tables (count<2, first region not at 0, empty/reversed, overlap) x "
                 "sequences of 5..35 Read/Seek/ReadAt with unaligned offsets and lengths (1,15,16,17,512,2047..70000); half of the runs over an underlying "
@@ -157,8 +157,8 @@ PROPS = {
                       "EncryptedISO.ReadAt; key derivation and IV layout are checked by the independent decryptor in the differential.",
     },
     "C11": {
-        "jobs": [{"cmd": "detect", "quick": 600, "thorough": 20000, "timeout": 3000},
-                 {"cmd": "views", "quick": 60, "thorough": 3000, "timeout": 3000}],
+        "jobs": [{"cmd": "detect", "quick": 2000, "thorough": 20000, "timeout": 3000},
+                 {"cmd": "views", "quick": 150, "thorough": 3000, "timeout": 3000}],
         "rule": "random points of the product: directory name case (PS3ISO/ps3iso/Ps3Iso/other) x extension case (.iso/.ISO/.Iso/.bin/none) x nesting x key "
                 "situation (none, adjacent, REDKEY, both with different keys, malformed, too short, adjacent is a directory) x watermark (none, encrypted, "
                 "decrypted) x file length (16 KiB, around 0xF6F..0x1071, tiny) x valid/invalid region table; opened through FS.Open, read at 7 windows "
@@ -192,7 +192,7 @@ PROPS = {
                       "previous user's bytes, for every chunking), over the session model lifted to schedules.",
     },
     "C13": {
-        "jobs": [sess_job(140, 2500, keep_ops=[], held=True, leak=True),
+        "jobs": [sess_job(320, 2500, keep_ops=[], held=True, leak=True),
                  {"cmd": "faults", "quick": 60, "thorough": 4000, "timeout": 6000}],
         "rule": SESS_RULE + "; job faults: six scenarios (plain file, directory enumeration with both entry commands and the bulk listing, generated image with "
                 "lazily opened member files, redump image with key lookup, 3k3y image, upload/mkdir/rmdir/delete) each run once without faults, then with one "
@@ -224,7 +224,7 @@ PROPS = {
                       "transition system of the listener stack.",
     },
     "C16": {
-        "jobs": [{"cmd": "timed", "quick": 36, "thorough": 400, "timeout": 3000}],
+        "jobs": [{"cmd": "timed", "quick": 72, "thorough": 400, "timeout": 3000}],
         "rule": "timing scripts against the real server with ReadTimeout T over net.Pipe: silent after connect, after k requests, stalled after 5 of 16 command bytes, "
                 "inside a path, inside an upload payload, pipelined requests, long-lived sessions of 20-40 requests; gaps are <= 0.6 T or silence; the cut is "
                 "expected in [T-30ms, T+max(150ms, T/2)] after the last handled request; non-trivial = at least 2 requests or a stall",
@@ -235,7 +235,7 @@ PROPS = {
                       "over a logical-clock model of the connection loop built on the byte-level parser.",
     },
     "C17": {
-        "jobs": [sess_job(60, 1500, keep_ops=["open_file", "read_cd"]),
+        "jobs": [sess_job(200, 1500, keep_ops=["open_file", "read_cd"]),
                  {"cmd": "cdsess", "quick": 8, "thorough": 400, "timeout": 6000, "project": sess_project(keep_ops=["open_file", "read_cd"])}],
         "rule": SESS_RULE + "; job cdsess: one connection over several CD images - every sector size x both signatures, an image without a "
                 "signature, one of exactly 2 MiB (lower edge of the window, inclusive) and one a byte below it, sparse images of 848 MiB and 848 MiB + 1 (upper "
